@@ -696,6 +696,90 @@ func replayRules(c *Ctx, which string) {
 			oa.Fail(d.accept.Pos(), "accept never reports 'latest' without moving the head: the first accepted number 0 (which becomes the newest accepted one in the initial position) is reported as not latest")
 		}
 
+		// R8 no ordering comparison on a sign-changed or narrowed 64-bit quantity; the shift count stays unsigned
+		{
+			o8 := c.Obl("R8", d.T, "sequence numbers, the maximum and the head are compared as the unsigned 64-bit values they are (no operand of <, <=, >, >= is a conversion of such a value to a signed or narrower type), and the shift routine takes an unsigned count that reaches it without passing through a signed type (distances of 2^63 and more are legitimate)", 1)
+			lossy := func(v ssa.Value) (string, bool) {
+				cv, ok := v.(*ssa.Convert)
+				if !ok {
+					return "", false
+				}
+				from, ok1 := cv.X.Type().Underlying().(*types.Basic)
+				to, ok2 := cv.Type().Underlying().(*types.Basic)
+				if !ok1 || !ok2 || from.Info()&types.IsInteger == 0 || to.Info()&types.IsInteger == 0 {
+					return "", false
+				}
+				size := func(b *types.Basic) int64 { return types.SizesFor("gc", "amd64").Sizeof(b) }
+				if from.Info()&types.IsUnsigned != 0 && size(from) == 8 && (to.Info()&types.IsUnsigned == 0 || size(to) < 8) {
+					if _, isC := cv.X.(*ssa.Const); isC {
+						return "", false
+					}
+					// only the quantities that range over the whole sequence space: the number itself, the
+					// maximum, the head (the window size is small)
+					src := origin(cv.X)
+					isSeq := len(d.check.Params) > 1 && sameOrigin(src, ssa.Value(d.check.Params[1]))
+					if fr, okf := asFieldLoad(src); okf && (fr.Field == d.latest || fr.Field == d.max) {
+						isSeq = true
+					}
+					if !isSeq {
+						return "", false
+					}
+					return fmt.Sprintf("%s(%s)", to.Name(), from.Name()), true
+				}
+				return "", false
+			}
+			nCmp := 0
+			for _, fn := range []*ssa.Function{d.check, d.accept} {
+				if fn == nil {
+					continue
+				}
+				instrsOfU(fn, func(in ssa.Instruction) {
+					b, ok := in.(*ssa.BinOp)
+					if !ok {
+						return
+					}
+					switch b.Op {
+					case token.LSS, token.LEQ, token.GTR, token.GEQ:
+					default:
+						return
+					}
+					nCmp++
+					for _, opnd := range []ssa.Value{b.X, b.Y} {
+						if what, bad := lossy(opnd); bad {
+							o8.Fail(in.Pos(), "%s compares %s: a 64-bit unsigned quantity is ordered after a conversion that changes its value for 2^63 and above (or truncates it)", fname(fn), what)
+						}
+					}
+				})
+			}
+			o8.Site(d.check.Pos(), "%d ordering comparisons in %s and its callback", nCmp, fname(d.check))
+			if d.lsh != nil {
+				if d.lsh.Signature.Params().Len() != 1 {
+					o8.Undecide("the shift routine does not take exactly one count")
+				} else if bt, ok := d.lsh.Signature.Params().At(0).Type().Underlying().(*types.Basic); !ok || bt.Info()&types.IsUnsigned == 0 {
+					o8.Fail(d.lsh.Pos(), "the shift routine takes a signed count: a jump of 2^63 or more becomes negative")
+				}
+				if !d.wrapped && d.accept != nil {
+					instrsOfU(d.accept, func(in ssa.Instruction) {
+						cl, ok := in.(*ssa.Call)
+						if !ok || cl.Call.StaticCallee() != d.lsh {
+							return
+						}
+						v := cl.Call.Args[len(cl.Call.Args)-1]
+						for k := 0; k < 6; k++ {
+							cv, ok := v.(*ssa.Convert)
+							if !ok {
+								break
+							}
+							if to, ok := cv.Type().Underlying().(*types.Basic); ok && to.Info()&types.IsUnsigned == 0 {
+								o8.Fail(in.Pos(), "the shift count passes through the signed type %s on its way to the shift routine", to.Name())
+							}
+							v = cv.X
+						}
+					})
+				}
+			}
+		}
+
 		// R6 no wrap-around of the unsigned arithmetic (plain detector: numbers up to 2^64-1)
 		if !d.wrapped {
 			o6 := c.Obl("R6", d.T, "the plain detector's unsigned 64-bit arithmetic cannot wrap around: every subtraction x-y is evaluated on a path that has established y <= x, and no two variable quantities are added (sequence numbers range up to 2^64-1)", 2)
